@@ -337,3 +337,63 @@ def aff_show(a):
         else:
             parts.append("%d*%s" % (v, k))
     return " + ".join(parts) if parts else "0"
+
+
+# ---------------------------------------------------------------------------
+# path enumeration over loop-free statement trees (E1 `dtab`)
+
+def enum_paths(stmt, decide, want, limit=512):
+    """Enumerate the paths through a statement tree made of CompoundStmt / IfStmt / ReturnStmt /
+    expression and declaration statements. decide(cond) -> True / False / None (None: both outcomes are
+    followed and (cond, outcome) is added to the path's guards). want(node) -> bool selects the
+    statements reported as events. Yields dicts {events: [...], guards: [(cond, bool)...], returned: node|None}.
+    Loops are treated as opaque statements (reported if wanted, never unrolled)."""
+    out = []
+
+    def go(nodes, i, events, guards, k):
+        # k: continuation (list of (nodes, index)) implemented by recursion on a stack of frames
+        while True:
+            if len(out) > limit:
+                return
+            if i >= len(nodes):
+                if not k:
+                    out.append({"events": events, "guards": guards, "returned": None})
+                    return
+                (nodes, i), k = k[0], k[1:]
+                continue
+            n = nodes[i]
+            kind = n.get("k")
+            if kind == "CompoundStmt":
+                k = [(nodes, i + 1)] + k
+                nodes, i = n.get("c") or [], 0
+                continue
+            if kind == "IfStmt":
+                d = decide(n["cond"])
+                branches = []
+                if d is None:
+                    branches = [(True, guards + [(n["cond"], True)]), (False, guards + [(n["cond"], False)])]
+                else:
+                    branches = [(d, guards)]
+                ev2 = events + ([("cond", n["cond"])] if want(n["cond"]) else [])
+                for outcome, g2 in branches:
+                    br = n.get("then") if outcome else n.get("else")
+                    if br is None:
+                        go(nodes, i + 1, list(ev2), list(g2), k)
+                    else:
+                        go([br], 0, list(ev2), list(g2), [(nodes, i + 1)] + k)
+                return
+            if kind == "ReturnStmt":
+                ev = events + ([("stmt", n)] if want(n) else [])
+                out.append({"events": ev, "guards": guards, "returned": n})
+                return
+            if kind in ("ContinueStmt", "BreakStmt"):
+                out.append({"events": events + [("stmt", n)], "guards": guards, "returned": None, "jump": kind})
+                return
+            u = n
+            while u.get("k") in ("ExprWithCleanups", "ParenExpr") and len(u.get("c") or []) == 1:
+                u = u["c"][0]
+            if want(u):
+                events = events + [("stmt", u)]
+            i += 1
+    go([stmt], 0, [], [], [])
+    return out
